@@ -127,6 +127,10 @@ pub mod transport;
 pub mod common;
 pub use self::common::*;
 
+#[cfg(fuse_backend_rs_verif)]
+#[allow(missing_docs)]
+pub mod verif;
+
 /// Convert io::ErrorKind to OS error code.
 /// Reference to libstd/sys/unix/mod.rs => decode_error_kind.
 pub fn encode_io_error_kind(kind: ErrorKind) -> i32 {
